@@ -25,7 +25,10 @@ LEVEL_TEXT = ("Lean: Faithful (every registry entry points at an existing unit t
               "up to that very unit) is preserved by EVERY finite history of the public operations - arithmetic, roots, as_ratio, prefix "
               "application, symbol resolution, define/derive/alias (run_faithful, induction over the op list); a define/derive/alias "
               "that raises returns exactly the state it was given (failed_unit_naming_changes_nothing); a successful alias binds "
-              "(alias_binds); no name is reported by two units (unit_name_never_bound_twice). For the single-name classes Prefix and "
+              "(alias_binds); no name is reported by two units (unit_name_never_bound_twice). QUERIES: no conversion, comparison or arithmetic "
+              "operation on quantities, whatever its arguments and outcome, touches a name registry or the names a unit reports "
+              "(rframed_convert, ...: the structural walk of Proofs/Frame.lean with the finer relation Frame), so the registries stay "
+              "faithful through every history of queries, unit operations and declarations (queries_faithful). For the single-name classes Prefix and "
               "Dimension the same over every history of constructor calls - anonymous or naming, in any order - and Dimension.derive "
               "(declarations_faithful_in_every_history, failed_declaration_changes_nothing, declaration_binds, name_never_bound_twice). "
               "Per run the registries regenerated from /repo satisfy the invariants (init_faithful, init_prefixes_faithful, "
@@ -46,8 +49,9 @@ THEOREMS = [
     "Measured.C19.declaration_binds", "Measured.C19.name_never_bound_twice",
     "Measured.Obligations.init_faithful", "Measured.Obligations.init_prefixes_faithful",
     "Measured.Obligations.init_dimensions_faithful", "Measured.Obligations.shipped_unit_names_faithful",
+    "Measured.queries_faithful", "Measured.rframed_convert", "Measured.C19.registries_faithful_after_every_query_history",
 ]
-LEAN_TARGETS = ["Props.C19", "Obligations.C19"]
+LEAN_TARGETS = ["Props.C19", "Obligations.C19", "Proofs.RegFrame", "Props.Planner"]
 QUICK = {"chunks": 8, "ops": 700}
 THOROUGH = {"chunks": 16, "ops": 5000}
 RULE = ("(history prefix, declaration); non-trivial = a declaration naming an object that already existed anonymously, a "
